@@ -525,11 +525,15 @@ namespace bloch::update {
             std::istringstream in(content);
             std::string line;
             while (std::getline(in, line)) {
-                if (line.find(assetName) == std::string::npos)
-                    continue;
                 std::istringstream parts(line);
                 std::string hash;
-                if (parts >> hash)
+                std::string name;
+                if (!(parts >> hash >> name))
+                    continue;
+                // sha256sum marks binary-mode entries with a leading '*'.
+                if (!name.empty() && name.front() == '*')
+                    name.erase(name.begin());
+                if (name == assetName)
                     return hash;
             }
             return std::nullopt;
